@@ -86,7 +86,7 @@ func genStop(rng *mon.RNG) stopPlan {
 	p.stormN = rng.PickInt(10, 100, 1000)
 	p.racers = rng.Range(0, 3)
 	p.racerN = rng.Range(4, 40)
-	p.maxTTL = int64(rng.PickInt(0, 0, 50))
+	p.maxTTL = int64(rng.PickInt(0, 0, 50, -1, -30))
 	return p
 }
 
